@@ -1,4 +1,506 @@
-//! Engine D (stub)
+//! Engine D: exhaustive sweeps of finite input domains. C04 (table occupancy patterns),
+//! C09 (lengths), C10 (typed keys), C13 (signatures), C14 (bulk calls).
 #![allow(dead_code)]
-use crate::pool::WorkerIo;
-pub fn worker_job(_kind: u8, _payload: &[u8], _io: &mut WorkerIo) -> Vec<u8> { Vec::new() }
+
+use crate::alphabet::*;
+use crate::decoder::{self, place_hash};
+use crate::engine_a::{check_flavour, run_flavour, ITER_FLAVOURS};
+use crate::pool::{JobResult, Pool, WorkerIo};
+use crate::props_a::Ctx;
+use crate::report::{Replay, Violation};
+use crate::subject::*;
+use crate::util::{show, Buf, Rd, SplitMix, J};
+use abyssiniandb::filedb::FileDbMap;
+use abyssiniandb::{DbXxx, DbXxxBase};
+use std::collections::BTreeMap;
+
+pub const JOB_D_C04: u8 = 40;
+
+// ---------------------------------------------------------------------------------------------
+// C04
+
+pub fn boundary_set(n: u64) -> Vec<u64> {
+    let mut v: Vec<i64> = vec![0, 1, 7, 8, 9, 55, 56, 57, 63, 64, 65, 71, 72];
+    let n = n as i64;
+    v.extend([n / 2 - 1, n / 2]);
+    v.extend((n - 73)..=(n - 55));
+    v.extend((n - 10)..=(n - 7));
+    v.extend([n - 2, n - 1]);
+    let mut out: Vec<u64> = v.into_iter().filter(|x| *x >= 0 && *x < n).map(|x| x as u64).collect();
+    out.sort();
+    out.dedup();
+    out
+}
+
+/// two keys for each wanted bucket of a table of n buckets
+fn keys_for_buckets(n: u64, wanted: Option<&[u64]>, seed: u64) -> BTreeMap<u64, Vec<Vec<u8>>> {
+    let mut m: BTreeMap<u64, Vec<Vec<u8>>> = BTreeMap::new();
+    let need: u64 = match wanted {
+        Some(w) => w.len() as u64,
+        None => n,
+    };
+    let want_set: Option<std::collections::HashSet<u64>> = wanted.map(|w| w.iter().copied().collect());
+    let mut rng = SplitMix(seed ^ 0xC04);
+    let mut full = 0u64;
+    let mut tries = 0u64;
+    while full < need {
+        tries += 1;
+        if tries > 4_000_000_000 {
+            crate::report::machinery_failure("C04 key search exhausted");
+        }
+        let k = rng.next().to_be_bytes().to_vec();
+        let b = place_hash(&k) % n;
+        if let Some(ws) = &want_set {
+            if !ws.contains(&b) {
+                continue;
+            }
+        }
+        let e = m.entry(b).or_default();
+        if e.len() < 2 {
+            e.push(k);
+            if e.len() == 2 {
+                full += 1;
+            }
+        }
+    }
+    m
+}
+
+struct C04State<T: Kt> {
+    m: FileDbMap<T>,
+    model: BTreeMap<Vec<u8>, Vec<u8>>,
+    keys: BTreeMap<u64, Vec<Vec<u8>>>,
+    occupied: std::collections::BTreeSet<u64>,
+    chain: usize,
+    patterns: u64,
+    traversals: u64,
+    max_items: u64,
+}
+
+impl<T: Kt> C04State<T> {
+    fn set(&mut self, b: u64, on: bool) -> Result<(), String> {
+        let ks = self.keys.get(&b).cloned().unwrap_or_default();
+        for k in ks.iter().take(self.chain) {
+            if on {
+                let v = vec![(b % 251) as u8, k[0], 7];
+                let r = guard(|| self.m.put(&k[..], &v));
+                if r != Out::Ok(()) {
+                    return Err(format!("put into bucket {b} {}", r.failed().unwrap_or_default()));
+                }
+                self.model.insert(k.clone(), v);
+            } else {
+                let exp = self.model.remove(k);
+                let r = guard(|| self.m.delete(&k[..]));
+                if r != Out::Ok(exp) {
+                    return Err(format!("delete from bucket {b} gives {:?}", r));
+                }
+            }
+        }
+        if on {
+            self.occupied.insert(b);
+        } else {
+            self.occupied.remove(&b);
+        }
+        Ok(())
+    }
+    fn check(&mut self, flavours: &[usize]) -> Result<(), String> {
+        self.patterns += 1;
+        self.max_items = self.max_items.max(self.model.len() as u64);
+        let r = guard(|| self.m.len());
+        if r != Out::Ok(self.model.len() as u64) {
+            return Err(format!("len() gives {:?} but {} entries are live", r, self.model.len()));
+        }
+        for f in flavours {
+            self.traversals += 1;
+            match run_flavour(&mut self.m, *f, self.model.len()) {
+                Out::Ok(Ok(items)) => {
+                    if let Some(bad) = check_flavour(*f, &items, &self.model) {
+                        return Err(format!("{} {}", ITER_FLAVOURS[*f], bad));
+                    }
+                }
+                Out::Ok(Err(bad)) => return Err(format!("{}: {}", ITER_FLAVOURS[*f], bad)),
+                o => return Err(format!("{} {}", ITER_FLAVOURS[*f], o.failed().unwrap_or_default())),
+            }
+        }
+        Ok(())
+    }
+}
+
+fn describe_pattern(occ: &std::collections::BTreeSet<u64>, n: u64, chain: usize) -> String {
+    if occ.len() <= 12 {
+        format!("occupied buckets {:?} of {n}, {chain} key(s) per bucket", occ)
+    } else if occ.len() as u64 >= n - 12 {
+        let empty: Vec<u64> = (0..n).filter(|b| !occ.contains(b)).collect();
+        format!("all {n} buckets occupied except {:?}, {chain} key(s) per bucket", empty)
+    } else {
+        format!("{} of {n} buckets occupied, {chain} key(s) per bucket", occ.len())
+    }
+}
+
+fn pattern_key(occ: &std::collections::BTreeSet<u64>, n: u64) -> String {
+    let shape = if occ.is_empty() {
+        "empty".to_string()
+    } else if occ.len() <= 2 {
+        format!("sparse{}", occ.len())
+    } else if occ.len() as u64 >= n.saturating_sub(1) {
+        "dense".to_string()
+    } else {
+        "mixed".to_string()
+    };
+    format!("n={n}:{shape}")
+}
+
+/// payload: params, expected n, family, lo, hi, chain, seed
+fn c04_job(payload: &[u8], io: &mut WorkerIo) -> Vec<u8> {
+    let mut r = Rd::new(payload);
+    let p = Params::dec(&mut r);
+    let n = r.u64();
+    let family = r.u8();
+    let lo = r.u64();
+    let hi = r.u64();
+    let chain = r.u8() as usize;
+    let seed = r.u64();
+    let replay_set: Vec<u64> = {
+        let c = r.u32();
+        (0..c).map(|_| r.u64()).collect()
+    };
+    let scratch = Scratch::new("c04");
+    let dir = scratch.fresh("d");
+    let mut out = Buf::new();
+    let fail = |out: &mut Buf, key: &str, msg: &str, occ: &[u64], pats: u64, trav: u64, maxi: u64| {
+        out.u8(1).str(key).str(msg).u32(occ.len() as u32);
+        for o in occ {
+            out.u64(*o);
+        }
+        out.u64(pats).u64(trav).u64(maxi);
+    };
+    let (db, m) = match open_map::<abyssiniandb::DbBytes>(&dir, MAP_NAME, &p) {
+        Out::Ok(x) => x,
+        o => {
+            fail(&mut out, &format!("n={n}:create"), &format!("creating the map {}", o.failed().unwrap_or_default()), &[], 0, 0, 0);
+            return out.0;
+        }
+    };
+    let bset = boundary_set(n);
+    let wanted: Option<Vec<u64>> = match family {
+        3 | 4 if n > 65536 => Some(bset.clone()),
+        5 => Some(replay_set.clone()),
+        _ => None,
+    };
+    let dense = family == 3;
+    let keys = if n > 65536 || family == 5 { keys_for_buckets(n, wanted.as_deref(), seed) } else { keys_for_buckets(n, None, seed) };
+    let mut st = C04State::<abyssiniandb::DbBytes> { m, model: BTreeMap::new(), keys, occupied: Default::default(), chain, patterns: 0, traversals: 0, max_items: 0 };
+    let all: Vec<usize> = (0..ITER_FLAVOURS.len()).collect();
+    let cheap: Vec<usize> = vec![0, 2];
+    let mut cursor = 0u64;
+    let res: Result<(), String> = (|| {
+        match family {
+            0 => {
+                // all subsets in Gray code order, indices lo..hi
+                let g = |i: u64| i ^ (i >> 1);
+                let start = g(lo);
+                for b in 0..n {
+                    if (start >> b) & 1 == 1 {
+                        st.set(b, true)?;
+                    }
+                }
+                let mut cur = start;
+                for i in lo..hi {
+                    let want = g(i);
+                    let diff = cur ^ want;
+                    if diff != 0 {
+                        let b = diff.trailing_zeros() as u64;
+                        st.set(b, (want >> b) & 1 == 1)?;
+                    }
+                    cur = want;
+                    cursor = i;
+                    io.progress(i);
+                    st.check(&all)?;
+                }
+            }
+            1 | 4 => {
+                // pairs {a,b}: a from positions lo..hi of the universe (all buckets or the boundary set)
+                let universe: Vec<u64> = if family == 1 { (0..n).collect() } else { bset.clone() };
+                for ai in lo..hi.min(universe.len() as u64) {
+                    let a = universe[ai as usize];
+                    st.set(a, true)?;
+                    io.progress(ai);
+                    st.check(&all)?; // the singleton
+                    for b in universe.iter().skip(ai as usize + 1) {
+                        st.set(*b, true)?;
+                        cursor = ai;
+                        st.check(if family == 1 && n > 64 { &cheap } else { &all })?;
+                        st.set(*b, false)?;
+                    }
+                    st.set(a, false)?;
+                    st.check(&cheap)?; // emptied again
+                }
+            }
+            2 => {
+                for a in lo..hi.min(n) {
+                    st.set(a, true)?;
+                    io.progress(a);
+                    st.check(&all)?;
+                    st.set(a, false)?;
+                }
+                st.check(&all)?;
+            }
+            3 => {
+                // dense, and dense except one bucket at positions lo..hi of the universe
+                let universe: Vec<u64> = if n <= 1024 { (0..n).collect() } else { bset.clone() };
+                for b in 0..n {
+                    if n > 65536 && !bset.contains(&b) {
+                        continue;
+                    }
+                    st.set(b, true)?;
+                }
+                st.check(&all)?;
+                for ai in lo..hi.min(universe.len() as u64) {
+                    let a = universe[ai as usize];
+                    st.set(a, false)?;
+                    io.progress(ai);
+                    st.check(if n > 4096 { &cheap } else { &all })?;
+                    st.set(a, true)?;
+                }
+            }
+            _ => {
+                // replay: exactly this pattern
+                for b in &replay_set {
+                    st.set(*b, true)?;
+                }
+                st.check(&all)?;
+            }
+        }
+        Ok(())
+    })();
+    let _ = dense;
+    let _ = cursor;
+    match res {
+        Ok(()) => {
+            out.u8(0).u64(st.patterns).u64(st.traversals).u64(st.max_items);
+        }
+        Err(msg) => {
+            let occ: Vec<u64> = st.occupied.iter().copied().collect();
+            let key = pattern_key(&st.occupied, n);
+            let full = format!("{}: {msg}", describe_pattern(&st.occupied, n, chain));
+            fail(&mut out, &key, &full, &occ, st.patterns, st.traversals, st.max_items);
+        }
+    }
+    let C04State { m, .. } = st;
+    let _ = guard_plain(move || {
+        drop(m);
+        drop(db);
+    });
+    out.0
+}
+
+fn c04_make_job(p: &Params, n: u64, family: u8, lo: u64, hi: u64, chain: u8, seed: u64, replay: &[u64]) -> Vec<u8> {
+    let mut b = Buf::new();
+    b.u8(JOB_D_C04);
+    p.enc(&mut b);
+    b.u64(n).u8(family).u64(lo).u64(hi).u8(chain).u64(seed).u32(replay.len() as u32);
+    for x in replay {
+        b.u64(*x);
+    }
+    b.0
+}
+
+pub fn c04(tier: &str, seed: u64) -> i32 {
+    let mut ctx = Ctx::new("C04", tier, seed, "model_checking");
+    let thorough = ctx.thorough();
+    ctx.pool.reinit(vec![]);
+    // jobs: (label, job)
+    let mut jobs: Vec<(String, u64, Vec<u8>)> = Vec::new();
+    let sizes: Vec<u64> = (0..=16).map(|k| 1u64 << k).collect();
+    for &n in &sizes {
+        // the table size is requested directly and, where possible, as a capacity that rounds to it
+        let mut ps = vec![Params::buckets(n)];
+        if n >= 16 {
+            ps.push(Params { ht: HtP::Capacity(n * 8 / 9), ..Params::defaults() });
+            ps.push(Params { ht: HtP::Buckets(n - n / 4 + 1), ..Params::defaults() });
+        } else if n == 8 {
+            ps.push(Params { ht: HtP::Capacity(3), ..Params::defaults() });
+        }
+        for (pi, p) in ps.iter().enumerate() {
+            if p.ht.expected_buckets() != n {
+                continue;
+            }
+            let primary = pi == 0;
+            if n <= 16 {
+                let total = 1u64 << n;
+                let parts = if n >= 12 { 16 } else { 1 };
+                if primary || thorough {
+                    for c in 0..parts {
+                        jobs.push((format!("n={n} all 2^{n} occupancy patterns (Gray order), 1 key per bucket"), n, c04_make_job(p, n, 0, total * c / parts, total * (c + 1) / parts, 1, seed, &[])));
+                    }
+                }
+                if primary && n <= 12 {
+                    jobs.push((format!("n={n} all 2^{n} occupancy patterns, 2 keys per bucket"), n, c04_make_job(p, n, 0, 0, total, 2, seed, &[])));
+                }
+                if !primary {
+                    jobs.push((format!("n={n} via {}: pairs", p.ht.label()), n, c04_make_job(p, n, 1, 0, n, 1, seed, &[])));
+                }
+            } else if n <= 1024 {
+                if primary && (n <= 256 || thorough) {
+                    let parts = (n / 16).max(1);
+                    for c in 0..parts {
+                        jobs.push((format!("n={n} all patterns of <= 2 occupied buckets"), n, c04_make_job(p, n, 1, n * c / parts, n * (c + 1) / parts, 1, seed, &[])));
+                    }
+                    jobs.push((format!("n={n} dense and dense-minus-one (every bucket)"), n, c04_make_job(p, n, 3, 0, n, 1, seed, &[])));
+                    jobs.push((format!("n={n} boundary pairs with chains of 2"), n, c04_make_job(p, n, 4, 0, n, 2, seed, &[])));
+                } else {
+                    jobs.push((format!("n={n} via {}: boundary pairs", p.ht.label()), n, c04_make_job(p, n, 4, 0, n, 1, seed, &[])));
+                    if primary {
+                        jobs.push((format!("n={n} dense and dense-minus-one (every bucket)"), n, c04_make_job(p, n, 3, 0, n, 1, seed, &[])));
+                    }
+                }
+            } else if primary {
+                let nb = boundary_set(n).len() as u64;
+                if thorough || n == 65536 || n == 2048 {
+                    let parts = 8;
+                    for c in 0..parts {
+                        jobs.push((format!("n={n} all singletons"), n, c04_make_job(p, n, 2, n * c / parts, n * (c + 1) / parts, 1, seed, &[])));
+                    }
+                }
+                jobs.push((format!("n={n} pairs over the boundary set ({nb} buckets)"), n, c04_make_job(p, n, 4, 0, nb, 1, seed, &[])));
+                if thorough {
+                    jobs.push((format!("n={n} pairs over the boundary set, chains of 2"), n, c04_make_job(p, n, 4, 0, nb, 2, seed, &[])));
+                }
+                if thorough || n == 65536 || n == 4096 {
+                    jobs.push((format!("n={n} dense and dense-minus-one at the boundary set"), n, c04_make_job(p, n, 3, 0, nb, 1, seed, &[])));
+                }
+            }
+        }
+    }
+    if thorough {
+        let n = 16 * 1024 * 1024u64;
+        let nb = boundary_set(n).len() as u64;
+        jobs.push(("default table (16 Mi buckets): pairs over the boundary set".into(), n, c04_make_job(&Params::defaults(), n, 4, 0, nb, 1, seed, &[])));
+    }
+    ctx.pool.watchdog = std::time::Duration::from_secs(if thorough { 120 } else { 30 });
+    let payloads: Vec<Vec<u8>> = jobs.iter().map(|j| j.2.clone()).collect();
+    let t0 = ctx.run.elapsed();
+    let results = ctx.pool.map(&payloads, |i| i);
+    let mut per_label: BTreeMap<String, (u64, u64)> = BTreeMap::new();
+    let mut patterns = 0u64;
+    let mut traversals = 0u64;
+    let mut nontrivial = 0u64;
+    for (i, res) in results.into_iter().enumerate() {
+        let (label, n, job) = &jobs[i];
+        match res {
+            JobResult::Done(b) => {
+                let mut r = Rd::new(&b);
+                if r.u8() == 0 {
+                    let p = r.u64();
+                    let t = r.u64();
+                    let _mx = r.u64();
+                    patterns += p;
+                    traversals += t;
+                    nontrivial += p;
+                    let e = per_label.entry(label.clone()).or_insert((0, 0));
+                    e.0 += p;
+                    e.1 += t;
+                } else {
+                    let key = r.string();
+                    let msg = r.string();
+                    let c = r.u32();
+                    let occ: Vec<u64> = (0..c).map(|_| r.u64()).collect();
+                    patterns += r.u64();
+                    traversals += r.u64();
+                    let mut rd = Rd::new(&job[1..]);
+                    let p = Params::dec(&mut rd);
+                    let _n = rd.u64();
+                    let _fam = rd.u8();
+                    let _lo = rd.u64();
+                    let _hi = rd.u64();
+                    let chain = rd.u8();
+                    let replay_job = c04_make_job(&p, *n, 5, 0, 0, chain, seed, &occ);
+                    ctx.run.violation(Violation { prop: "C04".into(), key, message: format!("table {}: {msg}", p.ht.label()), replay: Replay { engine: "C04".into(), config: replay_job, case: vec![], story: vec![format!("{label}"), format!("table parameter {}", p.ht.label()), msg.clone(), "replay: the same occupancy pattern is rebuilt in a fresh map by puts in ascending bucket order".into()] } });
+                }
+            }
+            JobResult::Crashed { how, progress } => {
+                let mut rd = Rd::new(&job[1..]);
+                let p = Params::dec(&mut rd);
+                let kind = if how.contains("hang") { "hang" } else { "abort" };
+                let key = format!("n={n}:{kind}");
+                if !ctx.run.violations.iter().any(|v| v.key == key) {
+                    match ctx.pool.run_isolated(job) {
+                        JobResult::Crashed { how: how2, .. } => {
+                            let msg = format!("{label} (table {}): the traversal does not return normally at step {:?}: {how}; confirmed in a fresh process: {how2}", p.ht.label(), progress);
+                            ctx.run.violation(Violation { prop: "C04".into(), key, message: msg.clone(), replay: Replay { engine: "C04".into(), config: job.clone(), case: vec![], story: vec![msg] } });
+                        }
+                        JobResult::Done(_) => crate::report::machinery_failure(&format!("C04 crash did not reproduce: {how}")),
+                    }
+                }
+            }
+        }
+    }
+    eprintln!("[C04] jobs={} patterns={patterns} traversals={traversals} {:.1}s", jobs.len(), ctx.run.elapsed() - t0);
+    ctx.states = patterns;
+    ctx.transitions = traversals;
+    for (l, (p, t)) in per_label.iter() {
+        ctx.runs.push(J::obj(vec![("label", J::s(l)), ("patterns", J::Int(*p as i64)), ("traversals", J::Int(*t as i64))]));
+    }
+    for (l, _, _) in jobs.iter().step_by((jobs.len() / 6).max(1)) {
+        ctx.run.sample(J::s(l));
+    }
+    ctx.run.add("patterns", patterns as i64);
+    let _ = nontrivial;
+    // the iterator oracle on arbitrary histories: closures under several table sizes
+    if ctx.run.violations.is_empty() {
+        for n in [8u64, 16, 64, 128, 1024] {
+            let alphas = crate::props_a::alphas_small();
+            let a = &alphas[if n == 8 { 1 } else { 0 }];
+            let mut cfg = crate::props_a::make_cfg("C04", KtId::Bytes, n, a, seed);
+            cfg.oracles = crate::engine_a::O_ITER;
+            let starts: Vec<crate::engine_a::Start> = crate::props_a::empty_start(&mut ctx, &cfg).into_iter().collect();
+            crate::props_a::run_closure(&mut ctx, &format!("{} [bytes, {n} buckets] all 7 iterator flavours on every state", a.label), &cfg, starts, 100_000, 30.0);
+        }
+        if thorough {
+            for kt in [KtId::Str, KtId::U64, KtId::I64, KtId::Vu64] {
+                let a = &crate::props_a::alphas_small()[0];
+                let mut cfg = crate::props_a::make_cfg("C04", kt, 8, a, seed);
+                cfg.oracles = crate::engine_a::O_ITER;
+                let starts: Vec<crate::engine_a::Start> = crate::props_a::empty_start(&mut ctx, &cfg).into_iter().collect();
+                crate::props_a::run_closure(&mut ctx, &format!("{} [{}]", a.label, kt.name()), &cfg, starts, 100_000, 30.0);
+            }
+        }
+    }
+    let rule = "exhaustive enumeration of table occupancy states (the iterator's scan depends only on table size, set of non-empty buckets and chain lengths): every power-of-two table size 1..65536 (requested as BucketsSize, as a non-power-of-two BucketsSize and as a Capacity that rounds to it); n<=16: all 2^n subsets in Gray-code order on one live map (so emptied-again buckets are on the path), n<=256 (1024 thorough): all patterns with <=2 occupied buckets and all dense-minus-one patterns, larger n: all singletons, all pairs over the boundary set, dense-minus-one at the boundary set; chains of 1 and 2 keys; on every pattern iter/iter_mut/keys/values/into_iter (by value, & and &mut): multiset = model, count = len(), size_hint exact before every step, three further next() give None; plus the same oracle on every state of image-graph closures (arbitrary histories) under table sizes 8,16,64,128,1024. states = patterns, transitions = traversals; every pattern is distinct by construction";
+    ctx.run.add("iterator_patterns_and_traversals", (patterns + traversals) as i64);
+    ctx.finish_model_checking(rule, &["patterns", "iterator_traversals"])
+}
+
+pub fn replay_c04(config: &[u8]) -> i32 {
+    let mut io = WorkerIo::sink();
+    let b = c04_job(&config[1..], &mut io);
+    let mut r = Rd::new(&b);
+    if r.u8() == 0 {
+        println!("REPLAY: no violation reproduced ({} patterns)", r.u64());
+        0
+    } else {
+        let key = r.string();
+        let msg = r.string();
+        println!("REPLAY VIOLATION [{key}]: {msg}");
+        1
+    }
+}
+
+// ---------------------------------------------------------------------------------------------
+
+pub fn worker_job(kind: u8, payload: &[u8], io: &mut WorkerIo) -> Vec<u8> {
+    match kind {
+        JOB_D_C04 => c04_job(payload, io),
+        _ => crate::props_e::worker_job(kind, payload, io),
+    }
+}
+
+// helpers shared with props_e
+pub fn small_val(i: u64) -> Vec<u8> {
+    vec![(i % 251) as u8, (i >> 8) as u8, 0x5a]
+}
+pub fn _unused(_: &dyn Fn(&[u8]) -> String) {
+    let _ = show;
+    let _ = decoder::vu_len;
+    let _ = absent_keys;
+}
